@@ -146,7 +146,6 @@ CrJudge(in, out, D) ==
                     out.errs[k][1] = CrPos(i) /\ <<out.errs[k][2], out.errs[k][3]>> \notin CrMissing(in, i, D) ),
              <<"the redirects reported are not the ones that lack a symbol", "reported", out.errs,
                "lacking", {CrPos(i) : i \in CrBad(in, D)}>> >> >>
-CrDet(in, D) == TRUE
 
 --------------------------------------------------------------------------
 (* LS - CompileLinkerScript *)
@@ -171,15 +170,17 @@ RECURSIVE Orders(_)          \* all orders (sequences without repetition) of the
 Orders(S) == IF S = {} THEN {<<>>} ELSE UNION { { <<x>> \o q : q \in Orders(S \ {x}) } : x \in S }
 LsResults(in) == {Str(LsApply(in, in.script, ord, 1)) : ord \in Orders(LsNames(in))}
 LsAbort(in) == in.have # "both" \/ LsBad(in)
-LsJudge(in, out, D) ==
+\* per-case constant, computed once when the case starts: the set of texts the script may become
+LsPre(in) == IF LsAbort(in) THEN {} ELSE LsResults(in)
+LsJudge(in, pre, out, D) ==
   << <<"LS", out.res \notin {"ok", "exit"}, <<"the step neither completed nor aborted", out.res>> >>,
      <<"LS", LsAbort(in) /\ (out.res = "ok" \/ out.written), <<"a malformed constants line or a missing input must abort before linker.ld is written",
                                                                "res", out.res, "written", out.written>> >>,
      <<"LS", ~LsAbort(in) /\ (out.res # "ok" \/ ~out.written), <<"the linker script must be produced", out.res>> >>,
-     LET bad == ~LsAbort(in) /\ out.res = "ok" /\ out.written /\ out.text \notin LsResults(in) IN
-     <<"LS", bad, IF bad THEN <<"linker.ld is not the script with the constants inlined", "got", out.text, "allowed", LsResults(in)>> ELSE <<>> >> >>
+     LET bad == ~LsAbort(in) /\ out.res = "ok" /\ out.written /\ out.text \notin pre IN
+     <<"LS", bad, IF bad THEN <<"linker.ld is not the script with the constants inlined", "got", out.text, "allowed", pre>> ELSE <<>> >> >>
 \* is the result required to be the same on every build?
-LsDet(in, D) == ~("LinkerMapOrder" \in D /\ ~LsAbort(in) /\ Cardinality(LsResults(in)) > 1)
+LsDet(in, pre, D) == ~("LinkerMapOrder" \in D /\ Cardinality(pre) > 1)
 
 --------------------------------------------------------------------------
 (* WO - GetOffsets / WriteOffsets *)
@@ -392,21 +393,22 @@ RtJudge(in, out, D) ==
 
 --------------------------------------------------------------------------
 (* the monitor *)
-Judge(comp, in, out, D) ==
-  CASE comp = "cr" -> CrJudge(in, out, D) [] comp = "ls" -> LsJudge(in, out, D) [] comp = "wo" -> WoJudge(in, out, D)
+Judge(comp, in, pre, out, D) ==
+  CASE comp = "cr" -> CrJudge(in, out, D) [] comp = "ls" -> LsJudge(in, pre, out, D) [] comp = "wo" -> WoJudge(in, out, D)
     [] comp = "ve" -> VeJudge(in, out, D) [] comp = "cd" -> CdJudge(in, out, D) [] comp = "mm" -> MmJudge(in, out, D)
     [] comp = "gv" -> GvJudge(in, out, D) [] comp = "oe" -> OeJudge(in, out, D) [] comp = "bw" -> BwJudge(in, out, D)
     [] comp = "do" -> DoJudge(in, out, D) [] comp = "rt" -> RtJudge(in, out, D)
     [] OTHER -> << <<"KBX", TRUE, <<"unknown component", comp>> >> >>
-MustRepeat(comp, in, D) == IF comp = "ls" THEN LsDet(in, D) ELSE TRUE
+MustRepeat(comp, in, pre, D) == IF comp = "ls" THEN LsDet(in, pre, D) ELSE TRUE
+Pre(comp, in) == IF comp = "ls" THEN LsPre(in) ELSE {}
 Failing(cs) == SelectSeq(cs, LAMBDA c : c[2])
 
-S0 == [comp |-> "", in |-> <<>>, nb |-> 0, first |-> <<>>, devs |-> {}]
+S0 == [comp |-> "", in |-> <<>>, pre |-> {}, nb |-> 0, first |-> <<>>, devs |-> {}]
 
 \* all checks of one run under the deviation set D
 RunChecks(s, e, D) ==
-  Judge(s.comp, s.in, e.out, D) \o
-  << <<"DET", s.nb > 0 /\ MustRepeat(s.comp, s.in, D) /\ e.out # s.first,
+  Judge(s.comp, s.in, s.pre, e.out, D) \o
+  << <<"DET", s.nb > 0 /\ MustRepeat(s.comp, s.in, s.pre, D) /\ e.out # s.first,
        <<"same input, different result", "component", s.comp, "run", s.nb + 1, "process", e.proc, "first", s.first, "now", e.out>> >> >>
 
 MonRun(s, e) ==
@@ -417,9 +419,10 @@ MonRun(s, e) ==
   IN [s  |-> [s EXCEPT !.nb = @ + 1, !.first = IF s.nb = 0 THEN e.out ELSE @, !.devs = @ \cup which],
       cs |-> dev]
 
-Mon(s, e) == CASE e.k = "case"  -> [s |-> [S0 EXCEPT !.comp = e.comp, !.in = e.in, !.devs = s.devs], cs |-> <<>>]
+\* s.devs: the deviations needed so far to explain the runs of the current case
+Mon(s, e) == CASE e.k = "case"  -> [s |-> [S0 EXCEPT !.comp = e.comp, !.in = e.in, !.pre = Pre(e.comp, e.in)], cs |-> <<>>]
                [] e.k = "run"   -> MonRun(s, e)
-               [] e.k = "reset" -> [s |-> [S0 EXCEPT !.devs = s.devs], cs |-> <<>>]
+               [] e.k = "reset" -> [s |-> S0, cs |-> <<>>]
                [] OTHER         -> [s |-> s, cs |-> << <<"KBX", TRUE, <<"unknown event", e.k>> >> >>]
 
 FirstFail(line, cs) == IF cs = <<>> THEN <<>> ELSE <<line, cs[1][1], cs[1][3]>>
